@@ -798,6 +798,10 @@ Definition valid_config (c : config) (heads : list head) : bool :=
 Definition in_domain (c : config) (H W : Z) : bool :=
   (0 <? H) && (0 <? W) && (H mod cfg_max_stride c =? 0) && (W mod cfg_max_stride c =? 0).
 
+Definition sel_vector (c : config) (heads : list head) (H W : Z) : list bool :=
+  [selector_F17 c; selector_F18 c; selector_F20 c heads; selector_F41 c heads; selector_F42 c H W;
+   selector_F43 c heads].
+
 (* ------------------------------------------------ harness entry point *)
 Inductive case :=
 | CModel (fixed : bool) (c : config) (mt : model_type) (parts edges os_c os_p : Z)
@@ -850,8 +854,20 @@ Definition run (c : case) : result :=
       end
   end.
 
+(* validity / domain / selectors of a model case, per call: compared with the
+   harness's own (Python) implementation of the same predicates on every run *)
+Definition classify (c : case) : list (bool * (bool * list bool)) :=
+  match c with
+  | CModel _ cfg mt parts edges os_c os_p inputs =>
+      let heads := get_head mt parts edges os_c os_p in
+      map (fun hw => (valid_config cfg heads, (in_domain cfg (fst hw) (snd hw),
+                                               sel_vector cfg heads (fst hw) (snd hw)))) inputs
+  | _ => []
+  end.
+
 From SV Require Import Base.Render.
 Definition rshape : shape -> rdr := rtriple rZ rZ rZ.
 Definition rresult (r : result) : rdr :=
   rpair rbool (rtriple (rlist (rpair (rpair rZ rZ) (rpair rZ rZ))) (rlist rZ) (rlist (ropt (rlist rshape))))
         (r_built r, (r_convs r, r_strides r, r_calls r)).
+Definition rclassify : list (bool * (bool * list bool)) -> rdr := rlist (rpair rbool (rpair rbool (rlist rbool))).
